@@ -179,6 +179,9 @@ def r4(ctx):
     for c in call_sites(bd, r"Option::replace$"):
         e = sym.call_expr(c.term)
         ctx.check(mentions_field(e[2][0], "last_unsol_frag") and mentions_call(e[2][1], r"LastUnsolFragment::new$"), "unsol:store-new", "last_unsol_frag.replace(new_frag)", bd.where(c.idx))
+        # ...and only a fragment that is actually accepted (start-up complete, or a null response) is remembered: a fragment
+        # ignored during start-up must not make its later retransmission look like a duplicate
+        require_cut(ctx, bd, c.idx, [("is_integrity_complete()", g_bool(lambda x: mentions_call(x, r"Association::is_integrity_complete$"), True)), ("raw_objects.is_empty()", g_bool(lambda x: mentions_call(x, r"::is_empty$") and mentions_field(x, "raw_objects"), True))], "unsol:store-only-accepted", "last_unsol_frag.replace(..)")
     nb = prog.body("master::association::LastUnsolFragment::new")
     for b, si, st, e in ret_sites(nb, ctx.sym(nb)):
         if e[0] == "agg":
@@ -286,6 +289,62 @@ def r7(ctx):
             ctx.check(ok, "transport-error:%s:fails-task" % name, "a malformed response ends the task with an error", bd.where(g.edge[1]), bad_detail="the TransportResponse::Error arm of %s returns %s" % (name, [expr_str(e)[:40] for _, e in rets]))
 
 
+SRC_EXC = {("run_single_non_read_task", "notify_link_activity", "source"): "a response popped while this task waits is credited to the addressed outstation's keep-alive timer (bookkeeping only; the source test itself is in validate_non_read_response)",
+           }
+DST_EXC = {("handle_unsolicited", "confirm_unsolicited", "dest"): "an unsolicited confirm is sent back to whoever sent the unsolicited response"}
+
+
+def r8(ctx):
+    """Address plumbing in the master task: what a callee calls `source` / `response` is the address / fragment popped from
+    the transport reader (or the caller's own `source` / `response`), what it calls `destination` / `dest` / `addr` is the
+    task's destination. A type-correct swap (both are FragmentAddr) disables the foreign-source test."""
+    prog = ctx.prog
+    n = 0
+    popped = lambda e: mentions_call(e, r"TransportReader::pop_response$")
+    for bd in prog.bodies_matching(r"^dnp3::master::task::MasterSession::"):
+        if "::tests::" in bd.path:
+            continue
+        sym = ctx.sym(bd)
+        caller = bd.path.split("MasterSession::")[1].split("::")[0]
+        for b in bd.calls():
+            if is_tracing(b.term.macros):
+                continue
+            c = b.term.callee or b.term.declared or ""
+            f = prog.fns.get(c)
+            if not f or not c.startswith("dnp3::master::task::MasterSession::") or "{closure" in c:
+                continue
+            ps = f.get("params") or []
+            e = sym.call_expr(b.term)
+            callee = c.split("::")[-1]
+            for i, pn in enumerate(ps):
+                if i >= len(e[2]) or not (f["inputs"][i].endswith("FragmentAddr") or f["inputs"][i].endswith("EndpointAddress") or "Response<" in f["inputs"][i]):
+                    continue
+                a = e[2][i]
+                if pn == "source":
+                    n += 1
+                    if (caller, callee, pn) in SRC_EXC and not popped(a) and not mentions_name(a, "source"):
+                        ctx.ok("plumbing:%s->%s.%s" % (caller, callee, pn), "listed exception: " + SRC_EXC[(caller, callee, pn)], bd.where(b.idx))
+                        continue
+                    ctx.check((popped(a) or mentions_name(a, "source")) and not (mentions_name(a, "dest") or mentions_name(a, "destination")), "plumbing:%s->%s.%s" % (caller, callee, pn), "%s(.. %s = %s ..)" % (callee, pn, expr_str(a)[:60]), bd.where(b.idx), bad_detail="%s passes `%s` as the SOURCE of the fragment to %s: the source test compares the destination with itself" % (caller, expr_str(a)[:60], callee))
+                elif pn in ("destination", "dest", "addr"):
+                    n += 1
+                    if (caller, callee, pn) in DST_EXC and mentions_name(a, "source"):
+                        ctx.ok("plumbing:%s->%s.%s" % (caller, callee, pn), "listed exception: " + DST_EXC[(caller, callee, pn)], bd.where(b.idx))
+                        continue
+                    ctx.check((mentions_name(a, "dest") or mentions_field(a, "dest") or mentions_name(a, "destination") or mentions_name(a, "addr")) and not popped(a) and not mentions_name(a, "source"), "plumbing:%s->%s.%s" % (caller, callee, pn), "%s(.. %s = %s ..)" % (callee, pn, expr_str(a)[:60]), bd.where(b.idx), bad_detail="%s passes `%s` as the DESTINATION to %s" % (caller, expr_str(a)[:60], callee))
+                elif pn == "response":
+                    n += 1
+                    ctx.check(popped(a) or mentions_name(a, "response"), "plumbing:%s->%s.%s" % (caller, callee, pn), "%s(.. response = %s ..)" % (callee, expr_str(a)[:60]), bd.where(b.idx))
+    if n < 30:
+        raise AnchorError("address plumbing: only %d address/response arguments found" % n)
+    # the popped pair is used as a pair: source and response of one call come from the same pop
+    for w in ("run_single_non_read_task", "execute_read_task"):
+        bd = prog.abody("master::task::MasterSession::" + w)
+        sym = ctx.sym(bd)
+        for c in call_sites(bd, r"MasterSession::(process_read_response|validate_non_read_response)$"):
+            ctx.require_guards(bd, c.idx, [("pop_response() is Response", g_is(popped, "Response"))], "plumbing:%s:popped-arm" % w, "response validation")
+
+
 RULES = [
     ("C15.R1", "T2", "non-READ acceptance: every conjunct dominates Ok(Some(response))", r1),
     ("C15.R2", "T2", "READ acceptance: correlation, FIR/FIN/CON shape, IIN2, parsed objects", r2),
@@ -294,4 +353,5 @@ RULES = [
     ("C15.R5", "T2", "response shape validation (function, IIN, UNS, FIR&FIN)", r5),
     ("C15.R6", "T8/T3", "multi-fragment reads: next seq, is_first; extraction bracket", r6),
     ("C15.R7", "T4", "malformed responses fail the task", r7),
+    ("C15.R8", "T8", "source / destination / response plumbing between the transport reader and the validators", r8),
 ]
